@@ -161,7 +161,7 @@ def run(ctx):
                              _mc_cfg(ctx, "mc_create", "create", maxreq=1, level=level, threads=threads, withpre=not quick),
                              None, None, jobs, ("MCrDispatch", "MCrPush", "MCrFinalize", "MLsRun", "MGsSample", "MGsEnd"))
         f_trace = ex.submit(C.rvh, ["trace-cli", "--ragc", cli, "--dir", os.path.join(ctx.work, "sessions"), "--seed", str(ctx.seed),
-                                    "--cases", "4" if quick else "16", "--reads", "10" if quick else "20", "--jobs", "1" if quick else "2", "--big", "56",
+                                    "--cases", "4" if quick else "16", "--reads", "10" if quick else "20", "--jobs", "1" if quick else "2", "--big", "110",
                                     "--out", os.path.join(ctx.work, "sessions.ndjson")], timeout=3000)
         agc, setup = _setup(ctx, cli, "multi", "ab:2,aa:3,ba:1", False)
         futs = [f_create]
@@ -264,7 +264,7 @@ def run(ctx):
                 "unsupported flag combination (%d). REPLAY: all behaviours TLC emits for the bounded model, each command compared with the "
                 "contract's allowed outcomes + byte identity with the concatenated single-sample answers; TRACE: all those runs plus "
                 "seeded random sessions (request lists up to 6 names over 2..5 samples, random prefixes, failing creates over an "
-                "existing archive; one session over 56 homologous samples, whose LZ groups span two packs, with request lists mixing "
+                "existing archive; one session over 110 homologous samples, whose LZ groups span two packs, with request lists mixing "
                 "samples of the first and the last pack) validated by TLC." % (composed, creates_ok, failures))
     ctx.assumptions += [
         "sample names over {a,b,c,#,0,1}, contigs of 500..1200 ACGT bases, -k 11 -s 100 -m 15; request lists <= 3 (REPLAY) / <= 6 (TRACE)",
